@@ -55,7 +55,7 @@ ModelOf(e) ==
             [] OTHER -> None)
     [] OTHER -> None
 
-Passive(e) == e.a \in {"Skip", "Blocked", "Quiet", "Timeout"}
+Passive(e) == e.a \in {"Skip", "Blocked", "Quiet", "Timeout", "Stress"}
 
 Bind(e, m) ==
   /\ segs' = e.st.segs /\ files' = ToSet(e.st.files) /\ listed' = e.st.listed /\ active' = e.st.active
@@ -67,7 +67,9 @@ Bind(e, m) ==
   /\ trn' = [m.n.trn EXCEPT !.pc = e.st.trn.pc]
   /\ cln' = [m.n.cln EXCEPT !.pc = e.st.cln.pc]
   /\ ever' = ever \cup UNION {Range(e.st.segs[k].recs) : k \in 1..Len(e.st.segs)}
-  /\ taint' = IF m.ok THEN taint \cup Tags(m.n) ELSE taint
+  \* a stress round with a truncator overlaps Append and Truncate all the time (open finding)
+  /\ taint' = IF e.a = "Stress" /\ e.args.trunc THEN {"append-overlaps-truncate"}
+              ELSE IF m.ok THEN taint \cup Tags(m.n) ELSE taint
   /\ UNCHANGED cfg
 
 Reset(e) ==
@@ -109,9 +111,25 @@ JudgeState(e) ==
   /\ Chk((\A p \in {e.st.app.pc, e.st.trn.pc, e.st.cln.pc} : p # "?running") => EpochsNow, "P", e, EpName)
   /\ Chk(hw' >= hw, "P", e, "X05_HWMonotone")
 
+\* a stress round (real schedule), judged when everybody has finished: the state predicates, and
+\* what the calls returned against what is stored
+StrictOffs(q) == \A i \in 1..Len(q) - 1 : q[i].off < q[i + 1].off
+JudgeStress(e) ==
+  LET v == View'
+      st == e.args.stored IN
+  /\ Chk(e.args.errs = <<>>, "P", e, "X05_StressCallFailed")
+  /\ Chk(e.args.rerrs = <<>>, "P", e, "X05_Reader")
+  /\ Chk(\A i \in DOMAIN v : \A j \in DOMAIN st : st[j].id = v[i].id => st[j].off = v[i].off, "P", e, "X05_AppendStored")
+  /\ Chk((~e.args.trunc /\ ~cfg.compact /\ cfg.msgs = 0) =>
+            \A j \in DOMAIN st : \E i \in DOMAIN v : v[i].id = st[j].id, "P", e, "X05_AppendStored")
+  /\ Chk(\A r \in DOMAIN e.args.reads :
+            /\ StrictOffs(e.args.reads[r])
+            /\ \A i \in DOMAIN e.args.reads[r] : \E j \in DOMAIN st : st[j] = e.args.reads[r][i], "P", e, "X05_Reader")
+
 \* what the properties demand of this step
 Judge(e) ==
   /\ JudgeState(e)
+  /\ (e.a = "Stress") => JudgeStress(e)
   /\ (e.a = "Reopen") => Chk(P_Reopen, "P", e, "X05_Reopen")
   /\ (e.a = "AppSetBegin") => Chk(P_AppendStep, "P", e, "X05_AppendKeeps")
   /\ (e.a = "Step" /\ e.args.p = "app") =>
